@@ -923,7 +923,15 @@ class P(Prop):
             return False
         d = case["delta"]
         if d is not None:
-            return "num" in d and not d["num"] > 0
+            if not ("num" in d and not d["num"] > 0):
+                return False
+            if not case["pts"]:
+                return False                     # `T[0]` raises IndexError before the loop is reached
+            # a non-positive step whose FIRST round already passes the last stamp ends the loop at once (a track whose last
+            # stamp is before its first): `time = tini; time += step; if time > tfin: break`
+            tini = self.T(*fields_of_ms(case["pts"][0][3])).toAbsTime()
+            tfin = self.T(*fields_of_ms(case["pts"][-1][3])).toAbsTime()
+            return not (tini + d["num"] > tfin)
         if not case["pts"]:
             return False
         n = case["npts"] if case["npts"] is not None else len(case["pts"]) * case["factor"]
@@ -1450,3 +1458,26 @@ class P(Prop):
             else:
                 yield dict(case, delta={"num": rng.choice([0.5, 1.0, 2.0])}, npts=None)
                 yield dict(case, delta={"list": []}, npts=rng.choice([None, 3]))
+
+
+# ---- tie to the source by translation (tools/py2lean.py -> lean/TracklibVerif/Gen/Interpolation.lean, regenerated on every run)
+P.tie_modules = ["TracklibVerif.Tie.C05", "TracklibVerif.Tie.C05Spatial"]
+P.theorems = P.theorems + [
+    ("TracklibVerif.Tie.C05", "TV.Tie.C05.tie_prepareTimeSampling_list", "the Lean translation of the CURRENT source of prepareTimeSampling, input a list of ObsTime (seen through toAbsTime), equals the model's prepareTimes (.instants l) on every argument"),
+    ("TracklibVerif.Tie.C05", "TV.Tie.C05.tie_prepareTimeSampling_track", "the translated prepareTimeSampling, input a Track, equals the model's prepareTimes (.track Q) on every argument"),
+    ("TracklibVerif.Tie.C05", "TV.Tie.C05.tie_prepareTimeSampling_number_fuel", "the translated prepareTimeSampling, input a number (the while-1 loop with break), run with fuel f returns the list of the model's prepareNumber run with the SAME fuel and is out of fuel exactly when the model's loop is; no hypothesis"),
+    ("TracklibVerif.Tie.C05", "TV.Tie.C05.tie_prepareTimeSampling_number", "whenever the model's prepareTimes (.number d) does not say nonterm (positive step with enough model fuel, or a non-positive step whose first round already ends the loop), the translated prepareTimeSampling returns its list for EVERY fuel >= int((tfin-tini)/d)+2"),
+    ("TracklibVerif.Tie.C05", "TV.Tie.C05.tie_prepareTimeSampling_number_nonpos", "a step that is not positive: for EVERY fuel >= 1 the translated prepareTimeSampling equals the model's prepareTimes ([tini] when tini + d > tfin, else out of fuel for every fuel = the model's nonterm), when the step never carries an instant past tfin"),
+    ("TracklibVerif.Tie.C05", "TV.Tie.C05.prepareTimeSampling_number_first_round", "whatever the sign of the step, when tini + d > tfin the translated prepareTimeSampling returns [tini] after the first round (as the model's prepareTimes now does)"),
+    ("TracklibVerif.Tie.C05", "TV.Tie.C05.temporalLoop_tie", "the for-k-in-range(len(REF)) loop of __resampleTemporal (skip tests, rewind join, while scan, bracket reads with Python's index -1, two divisions, appended observation) equals the model's temporalLoop, for an arbitrary body satisfying the pointwise equation proved of the generated body"),
+    ("TracklibVerif.Tie.C05", "TV.Tie.C05.tie_resampleTemporal_list", "the Lean translation of the CURRENT source of __resampleTemporal, reference a list of ObsTime, equals lift (resampleTemporal (.instants l)) on EVERY track and list for every fuel > len(track), errors included (IndexError, ZeroDivisionError); hypothesis: den < 0 or 0 < den is the negation of den == 0 on differences of two stamps"),
+    ("TracklibVerif.Tie.C05", "TV.Tie.C05.tie_resampleTemporal_track", "the translated __resampleTemporal, reference a Track, equals lift (resampleTemporal (.track Q)) on EVERY track and reference for every fuel > len(track); same hypothesis"),
+    ("TracklibVerif.Tie.C05", "TV.Tie.C05.tie_resampleTemporal_number_fuel", "the translated __resampleTemporal, reference a number, for every fuel > len(track): IndexError on an empty track, out of fuel exactly when the model's prepareNumber with the SAME fuel is, else lift of the model's temporalLoop on prepareNumber's list; no hypothesis on the step"),
+    ("TracklibVerif.Tie.C05", "TV.Tie.C05.tie_resampleTemporal_number", "whenever the model's resampleTemporal (.number d) does not say nonterm, the translated __resampleTemporal returns lift of the model's result for EVERY fuel > len(track) and >= int((tfin-tini)/d)+2"),
+    ("TracklibVerif.Tie.C05", "TV.Tie.C05.tie_resampleTemporal_number_nonpos", "a step that is not positive: on EVERY track (empty, or last stamp before the first, included) the translated __resampleTemporal equals lift of the model's result for every fuel > len(track) (nonterm = out of fuel for every fuel), when the step never carries an instant past the last stamp; Tri hypothesis as for the list variant"),
+]
+P.theorems = P.theorems + [
+    ("TracklibVerif.Tie.C05Spatial", "TV.Tie.C05Spatial.tie_resampleSpatial", "__resampleSpatial translated from the CURRENT source = the model's resampleSpatial (cum/legs2D, scanB, bracket, spatialLoop), exceptions included, on EVERY track (the empty one too) and step, for every fuel >= len(track); hypotheses: x**2 = x*x, IntCast = NatCast, the zero test of ds and of abscissa differences is the model's (no NaN divisor)"),
+    ("TracklibVerif.Tie.C05Spatial", "TV.Tie.C05Spatial.tie_resampleSpatial_of_zeroTest", "the same with the zero-test hypothesis for every scalar (ordered fields)"),
+    ("TracklibVerif.Tie.C05Spatial", "TV.Tie.C05Spatial.resampleSpatial_empty_zero", "an empty track with ds == 0: ZeroDivisionError on both sides (the division precedes getFirstObs; former model deviation, corrected in the model)"),
+]
